@@ -96,8 +96,8 @@ func wShard(p, ver int) *wImage {
 		os.MkdirAll(filepath.Join(d, "c19"), 0o755)
 		cacheFile = filepath.Join(d, "c19", fmt.Sprintf("%d-%d.zoekt", p, ver))
 		if data, err := os.ReadFile(cacheFile); err == nil && len(data) > 0 {
-			if p < 3 {
-				im = &wImage{data: data, repos: []string{fmt.Sprintf("w%d", p)}}
+			if p != 3 {
+				im = &wImage{data: data, repos: []string{wSimpleName(p)}}
 			} else {
 				im = &wImage{data: data, repos: []string{"c0", "c1"}}
 			}
@@ -113,9 +113,13 @@ func wShard(p, ver int) *wImage {
 			}
 		}
 	}()
-	if p < 3 {
-		name := fmt.Sprintf("w%d", p)
-		s := buildSimple(wRepo(uint32(p+1), name, ver), wRepo(uint32(p+1), name, ver).Docs, 0)
+	if p != 3 {
+		name := wSimpleName(p)
+		id := uint32(p + 1)
+		if p >= 4 {
+			id = 5
+		}
+		s := buildSimple(wRepo(id, name, ver), wRepo(id, name, ver).Docs, 0)
 		im = &wImage{data: s.Data, repos: []string{name}}
 	} else {
 		a := wRepo(10, "c0", ver)
@@ -127,9 +131,26 @@ func wShard(p, ver int) *wImage {
 	return im
 }
 
+// wSimpleName: paths 0..2 hold repositories w0..w2; paths 4 and 5 hold the same
+// repository "x_v2" (its name contains "_v") under the current and the next
+// index format version: while both files exist only the newer format is served.
+func wSimpleName(p int) string {
+	if p >= 4 {
+		return "x_v2"
+	}
+	return fmt.Sprintf("w%d", p)
+}
+
+const wPaths = 6
+
 func wPath(dir string, p int) string {
-	if p < 3 {
+	switch {
+	case p < 3:
 		return filepath.Join(dir, fmt.Sprintf("w%d_v%d.00000.zoekt", p, index.IndexFormatVersion))
+	case p == 4:
+		return filepath.Join(dir, fmt.Sprintf("x_v2_v%d.00000.zoekt", index.IndexFormatVersion))
+	case p == 5:
+		return filepath.Join(dir, fmt.Sprintf("x_v2_v%d.00000.zoekt", index.NextIndexFormatVersion))
 	}
 	return filepath.Join(dir, fmt.Sprintf("compound-verif_v%d.00000.zoekt", index.NextIndexFormatVersion))
 }
@@ -144,6 +165,9 @@ type diskFile struct {
 func aliveTokens(files map[int]*diskFile) map[string]bool {
 	out := map[string]bool{}
 	for p, f := range files {
+		if _, newer := files[5]; p == 4 && newer {
+			continue // superseded by the same repository's shard in the newer index format
+		}
 		for _, r := range wShard(p, f.ver).repos {
 			if !f.tomb[r] {
 				out[wToken(r, f.ver)] = true
@@ -200,13 +224,13 @@ func runC19(t *testing.T, tp *simrt.Tape, keepTrace bool, gcMode bool) hx.Result
 	nInit := tp.GenRange(0, 4)
 	initial := map[int]bool{}
 	for i := 0; i < nInit; i++ {
-		initial[tp.Gen(4)] = true
+		initial[tp.Gen(wPaths)] = true
 	}
 	nChanges := tp.GenRange(1, 8)
 	sleeps := []time.Duration{time.Millisecond, 3 * time.Millisecond, 200 * time.Millisecond, 2 * time.Second, 20 * time.Second, 70 * time.Second}
 	var changes []change
 	for i := 0; i < nChanges; i++ {
-		c := change{p: tp.Gen(4), sleep: sleeps[tp.Gen(len(sleeps))]}
+		c := change{p: tp.Gen(wPaths), sleep: sleeps[tp.Gen(len(sleeps))]}
 		switch tp.Gen(7) {
 		case 6:
 			// replaced by a file that carries an OLDER mtime than the loaded version
@@ -324,7 +348,7 @@ func runC19(t *testing.T, tp *simrt.Tape, keepTrace bool, gcMode bool) hx.Result
 		}
 		// initial content is written before the searcher starts
 		simos.SetSeqProc(nil)
-		for p := 0; p < 4; p++ {
+		for p := 0; p < wPaths; p++ {
 			if !initial[p] {
 				continue
 			}
